@@ -304,6 +304,8 @@ def run(unit, R, tier, only=None):
                     except Unspecified:
                         continue
                     except MustFail:
+                        if level >= 3:
+                            continue        # operations on a missing source are explored up to depth 2 only
                         expect = "fail"
                         m2 = m
                     inner = {"history": h2, "ops": [list(OPS[q]) for q in h2]}
@@ -335,7 +337,9 @@ def run(unit, R, tier, only=None):
                     good = observe(R, inner, w2, m2, seeded)
                     R.c["traces"] += 1
                     c = m2.canon()
-                    if good and c not in seen and level < depth:
+                    if good and c not in seen and level < depth and not any(m2.has_external(f) for f in FILES):
+                        # (states holding an external link are checked but not expanded: what later operations on the OTHER file
+                        # mean for the link is outside the statement, and finding F19 is visible in most of them anyway)
                         seen.add(c)
                         nxt.append((h2, w2, m2))
                     else:
